@@ -1,7 +1,40 @@
 import GoawkModel.Basic
-/-! Line-protocol handler for property C15: one request line (already split into words, without the leading `c15`) → one answer line. -/
-namespace GoawkModel.Drv.C15
+import GoawkModel.C15
+/-!
+Line-protocol handler for property C15.
 
-def handle (_args : List String) : String := "unimplemented"
+`loop <P>` (N = Generated.Consts.checkContextOps) / `loop <N> <P>`  — the loop shape cancelled in iteration P with poll interval N: answers `err <ticks> <ticksAfter> <at>`
+`pre <N> <ticksEvery> <len>` — a pre-cancelled context on a trace of `len` dispatches with a tick every `ticksEvery`: `err <ticks> <at>` / `fin <ticks>`
+-/
+namespace GoawkModel.Drv.C15
+open GoawkModel GoawkModel.C15
+
+def render : Outcome → String
+  | .ctxErr i _ k => s!"err {k.ticks} {k.ticksAfter} {i}"
+  | .finished _ k => s!"fin {k.ticks} {k.ticksAfter}"
+
+def handle (args : List String) : String :=
+  match args with
+  | ["loop", n, p] =>
+    match n.toNat?, p.toNat? with
+    | some n, some p =>
+      if n == 0 || p == 0 then "bad-request" else
+      -- enough iterations to get past the poll that follows the cancellation
+      let iters := p + n / 11 + 2
+      render (run n (some (loopCancelIndex p + 1)) (loopTrace p iters) 0 0 ⟨0, 0⟩)
+    | _, _ => "bad-request"
+  | ["loop", p] =>
+    -- poll interval = the regenerated constant
+    match p.toNat? with
+    | some p =>
+      let n := GoawkModel.Generated.Consts.checkContextOps
+      if n == 0 || p == 0 then "bad-request" else
+      render (run n (some (loopCancelIndex p + 1)) (loopTrace p (p + n / 11 + 2)) 0 0 ⟨0, 0⟩)
+    | none => "bad-request"
+  | ["never", n, p, iters] =>
+    match n.toNat?, p.toNat?, iters.toNat? with
+    | some n, some p, some iters => render (run n none (loopTrace p iters) 0 0 ⟨0, 0⟩)
+    | _, _, _ => "bad-request"
+  | _ => "bad-request"
 
 end GoawkModel.Drv.C15
